@@ -121,6 +121,8 @@ def proj_wellview(lw):
             label = {nm: (nm if isinstance(nm, str) else f"<{type(nm).__name__} {nm!r}>") for nm in wc.keys()}
             entries = []
             for nm in sorted(wc.keys(), key=lambda nm: label[nm]):
+                if wc[nm] == 0:
+                    continue  # a component reported with fraction 0 is as good as one that is not listed
                 n, d = proj_frac(wc[nm])
                 entries.append([label[nm], n, d])
             out.append(entries)
